@@ -457,6 +457,8 @@ def compare(spec, lib, where='top', top=True, prov=None, stats=None, out=None, l
                     prov[ov[1][3]] = (path, where, s, e)
                     locs[path] = (where, s, e)
                 bump('typed_ok')
+            elif len(ov) == 1 and exact and exact[0][2] == f'w{lb}':
+                out.append(dict(desc, kind='signedness', detail=f'schema field {path} is VarUInteger {lb}, library reads it as a signed VarInteger'))
             else:
                 out.append(dict(desc, kind='width', detail=f'schema field {path} is VarUInteger (prefix {lb} bits, {e - s} bits in all) at bit {s}; '
                                                           'library reads ' + ', '.join(f'{r[2]}{r[1] - r[0]}@{r[0]}' for r in ov)))
